@@ -259,6 +259,9 @@ func (cr *checkRun) writeEvidence(seed, nObl, discharged, nViol, nKF int, unledg
 		"trusted-pure packages (not assumed to write rain state): " + strings.Join(purePkgs, " "): true,
 		"single-owner assumption: goroutines spawned by a function under contract do not write the state it reasons about; sync and atomic operations have sequential semantics": true,
 	}
+	for _, tf := range cr.trustedFns {
+		trusted["trusted contract (body not verified) of "+tf] = true
+	}
 	abstractions := map[string][]string{}
 	var samples []map[string]string
 	for _, r := range cr.results {
